@@ -75,9 +75,10 @@ func (r *qLogReader) seekTS(ctx context.Context, timestamp int64) (err error) {
 
 				continue
 			} else if errors.Is(err, errTSTooLate) {
-				// Just seek to the start then.  timestamp is probably between
-				// the end of the previous one and the start of this one.
-				return r.SeekStart()
+				// Just seek to the start of this file then.  timestamp is
+				// probably between the end of this one and the start of the
+				// newer one.
+				return r.seekFileStart(i)
 			} else if errors.Is(err, errTSNotFound) {
 				return err
 			} else {
@@ -113,6 +114,15 @@ func (r *qLogReader) SeekStart() error {
 
 	r.currentFile = len(r.qFiles) - 1
 	_, err := r.qFiles[r.currentFile].SeekStart()
+
+	return err
+}
+
+// seekFileStart changes the current position to the end of the file with index
+// i, that is to its newest record.
+func (r *qLogReader) seekFileStart(i int) (err error) {
+	r.currentFile = i
+	_, err = r.qFiles[i].SeekStart()
 
 	return err
 }
